@@ -1226,14 +1226,17 @@ Proof.
 Qed.
 
 (* ----------------------------------------------------------------- CLI -- *)
-Lemma cli_invalid_exit i before : cli_valid i = false ->
-  exists n, exit_code (cli_run i before) = Some n /\ n <> 0%N.
+Lemma cli_invalid_exit eager i before : cli_valid i = false ->
+  exists n, exit_code (cli_run eager i before) = Some n /\ n <> 0%N.
 Proof.
-  destruct i; try discriminate; intros _; [exists 2%N|exists 1%N|exists 1%N|exists 1%N]; split; try reflexivity; discriminate.
+  destruct eager, i; try discriminate; intros _;
+    (exists 2%N; split; [reflexivity|discriminate]) || (exists 1%N; split; [reflexivity|discriminate]).
 Qed.
-Lemma cli_unreadable_intact before : out_file (cli_run InUnreadable before) = before.
-Proof. reflexivity. Qed.
-Lemma cli_valid_writes code before : cli_run (InDoc code) before = CliState (Some code) (Some 0%N).
-Proof. reflexivity. Qed.
-Lemma cli_truncates i before : cli_valid i = false -> i <> InUnreadable -> out_file (cli_run i before) = Some [].
+Lemma cli_unreadable_intact eager before : out_file (cli_run eager InUnreadable before) = before.
+Proof. destruct eager; reflexivity. Qed.
+Lemma cli_valid_writes eager code before : cli_run eager (InDoc code) before = CliState (Some code) (Some 0%N).
+Proof. destruct eager; reflexivity. Qed.
+Lemma cli_truncates i before : cli_valid i = false -> i <> InUnreadable -> out_file (cli_run true i before) = Some [].
 Proof. destruct i; try discriminate; try reflexivity. congruence. Qed.
+Lemma cli_lazy_intact i before : cli_valid i = false -> out_file (cli_run false i before) = before.
+Proof. destruct i; try discriminate; reflexivity. Qed.
